@@ -66,10 +66,10 @@ def harness_cfg(d):
 def gen(ctx, defines, num, depth, label, exhaustive=False):
     """Behaviours of GenConn: seeded simulation, or (exhaustive) every behaviour within the constants."""
     if exhaustive:
-        r = ctx.tlc(SPEC, "GenConn", "Gen_Conn.cfg", mode="mc", defines=defines, timeout=2400, count=False)
+        r = ctx.tlc(SPEC, "GenConn", "GenConn.cfg", mode="mc", defines=defines, timeout=2400, count=False)
     else:
         # -simulate num is per worker
-        r = ctx.tlc(SPEC, "GenConn", "Gen_Conn.cfg", mode="sim", sim_num=max(1, num // GEN_WORKERS), sim_depth=depth,
+        r = ctx.tlc(SPEC, "GenConn", "GenConn.cfg", mode="sim", sim_num=max(1, num // GEN_WORKERS), sim_depth=depth,
                     workers=GEN_WORKERS, defines=defines, timeout=1200, count=False)
     if not r.ok:
         raise vlib.MachineryError("GenConn (%s) failed: %s %s" % (label, r.error or r.violation, r.out[-800:]))
@@ -284,7 +284,7 @@ def check_c33(ctx):
     q = ctx.tier == "quick"
     mc = {"MAXSID": 3, "SIDS": "{1,3}", "STEPS": 4 if q else 5}
     ctx.cov["constants"]["MC_Conn33"] = mc
-    ctx.tlc_must_pass(SPEC, "ConnMC", "MC_Conn33.cfg", defines=mc, timeout=2400, coverage=not q)
+    ctx.tlc_must_pass(SPEC, "ConnMC", "Conn_MC33.cfg", defines=mc, timeout=2400, coverage=not q)
     cases = []
     for sw, num in ((3 * U, 480 if q else 2400), (65535, 160 if q else 800)):
         g = defs(SW0=sw, KINDS='{"HEADERS","DATA","RST"}', REQS='{"post","get"}',
@@ -304,7 +304,7 @@ def check_c34(ctx):
     q = ctx.tier == "quick"
     mc = {"MAXSID": 3, "SIDS": "{1,3}", "STEPS": 4 if q else 5}
     ctx.cov["constants"]["MC_Conn34"] = mc
-    ctx.tlc_must_pass(SPEC, "ConnMC", "MC_Conn34.cfg", defines=mc, timeout=2400, coverage=not q)
+    ctx.tlc_must_pass(SPEC, "ConnMC", "Conn_MC34.cfg", defines=mc, timeout=2400, coverage=not q)
     cases = []
     for osw, num in ((32768, 400 if q else 2000), (0, 120 if q else 600), (65535, 80 if q else 400)):
         g = defs(OSW0=osw, KINDS='{"HEADERS","WU","SETTINGS","RST"}', REQS='{"get"}',
@@ -330,13 +330,13 @@ def check_c35(ctx):
     mc = {"MAXSID": 3, "MAXS": 2, "SIDS": "{1,3}", "REQS": '{"get","post","nomethod","upper","connhdr"}',
           "STEPS": 3 if q else 4, "MAXDATA": 2, "MAXHDRS": 3, "KINDS": ALLKINDS}
     ctx.cov["constants"]["MC_Conn35"] = mc
-    ctx.tlc_must_pass(SPEC, "ConnMC", "MC_Conn35.cfg", defines=mc, timeout=2400, coverage=not q)
+    ctx.tlc_must_pass(SPEC, "ConnMC", "Conn_MC35.cfg", defines=mc, timeout=2400, coverage=not q)
     cases = []
     g = defs(MAXS=2, SIDS="{1,2,3,5}", KINDS=ALLKINDS, REQS=ALLREQS, TRAILERS='{"trailers","trailerspseudo","trailersupper"}',
              DATALENS="{0,1,%d}" % U, PADS="{0,1}", WUINCS="{0,1,2147483647}", IWS="IwsAll", MFS="MfsAll",
              HOPS='{"read","write","ret"}', STEPS=7, MINSTEPS=3, MAXHDRS=5, HEAVY='{"HEADERS"}', FIRSTH="FALSE")
     ctx.cov["constants"]["Gen_C35"] = g
-    cases += gen(ctx, g, 600 if q else 4000, 150, "C35")
+    cases += gen(ctx, g, 600 if q else 3000, 150, "C35")
     # every sequence of 2 (thorough: 3, the first one opening a stream) stimuli over a smaller alphabet
     gx = defs(MAXS=2, SIDS="{1,3}", KINDS='{"HEADERS","NEH","DATA","RST","WU","SETTINGS","PING","CONT"}',
               REQS='{"get","post","upper","connhdr"}', TRAILERS='{"trailers"}', DATALENS="{1}", PADS="{0}",
@@ -509,11 +509,11 @@ def check_c37(ctx):
     q = ctx.tier == "quick"
     mc = {"STEPS": 4 if q else 5}
     ctx.cov["constants"]["MC_ConnFlood"] = dict(mc, Limit=3, Escape=2, Bursts="{1,2,4}")
-    ctx.tlc_must_pass(SPEC, "ConnFlood", "MC_ConnFlood.cfg", defines=mc, timeout=1500, want_cases=False)
+    ctx.tlc_must_pass(SPEC, "ConnFlood", "ConnFlood_MC.cfg", defines=mc, timeout=1500, want_cases=False)
     g = {"ESCAPE": FLOOD_ESCAPE, "BURSTS": "{1,2,4000,5000,6000,9999,10001,%d}" % (10001 + FLOOD_ESCAPE),
          "KINDS": '{"PING","WU0","DATAC","SETTINGS"}', "STEPS": 3}
     ctx.cov["constants"]["Gen_ConnFlood"] = dict(g, Limit=10000)
-    r = ctx.tlc(SPEC, "ConnFlood", "Gen_ConnFlood.cfg", mode="sim", sim_num=100 if q else 500, sim_depth=6,
+    r = ctx.tlc(SPEC, "ConnFlood", "ConnFlood_Gen.cfg", mode="sim", sim_num=100 if q else 500, sim_depth=6,
                 defines=g, timeout=900, count=False)
     if not r.ok:
         raise vlib.MachineryError("ConnFlood generator failed: %s %s" % (r.error or r.violation, r.out[-600:]))
